@@ -201,10 +201,15 @@ class Program:
         return s._vo
 
     # ------------------------------------------------------------------ ADTs
-    def adt_ctor(s, text):
+    def adt_ctor(s, text, dst_type=None):
         base = strip_generics(text)
         parts = base.split('::')
         L = parts[-1]
+        if len(parts) == 1 and dst_type:
+            # bare (trimmed) variant name: the destination type decides which enum it belongs to
+            h = head(dst_type)
+            if h in s.enums and L in s.enums[h]:
+                return h, s.enums[h].index(L)
         if len(parts) >= 2:
             P = parts[-2]
             if P in s.enums and L in s.enums[P]:
@@ -330,6 +335,9 @@ class Program:
                 raise Unsupported('call ' + callee + ' -> %s::%s' % (th, meth))
             generic = th in ('dyn', 'Self') or (_GEN_PARAM.match(th) and th not in s.enums and th not in s.structs) or th.startswith('impl ')
             if generic:
+                if trh == 'Clone' and meth == 'clone' and args and isinstance(args[0], Ref) and isinstance(ex.read(args[0]), Ref):
+                    # T is itself a reference type (&State in List<&State>): Clone strips exactly one reference level
+                    return lambda ex, r: ex.read(r)
                 rt = s.rtype(ex, args[0]) if args else None
                 if rt == 'closure' and trh in ('Fn', 'FnMut', 'FnOnce'):
                     return lambda ex, clo, tup: s.call_closure(ex, clo, tup)
